@@ -33,6 +33,7 @@ package mint
 //@ requires [pools_distinct_from_mint] module("time_based_rewards") != module("mint") && module("fee_collector") != module("mint") && module("time_based_rewards") != module("fee_collector")
 //@ modifies bank.bal, bank.supply, mint.Minter
 //@ ensures [nothing_minted_before_init] !(has(old(mint.Minter)) && old(mint.Minter.Initialized)) ==> bank.supply == old(bank.supply) && bank.bal == old(bank.bal)
+//@ ensures [minter_untouched_before_init] has(old(mint.Minter)) && !old(mint.Minter.Initialized) ==> has(mint.Minter) && mint.Minter == old(mint.Minter)
 //@ ensures [mints_rate_times_elapsed_ms] err == nil && old(mint.Minter.Initialized) && old(mint.Minter.PreviousBlockTime) != nil && blocktime(ctx) != zerotime() ==> bank.supply == old(bank.supply) + 146940000 * ((blocktime(ctx) - old(deref(mint.Minter.PreviousBlockTime))) / 1000000) / 86400000
 //@ ensures [advances_previous_time] err == nil && old(mint.Minter.Initialized) && blocktime(ctx) != zerotime() ==> mint.Minter.PreviousBlockTime != nil && deref(mint.Minter.PreviousBlockTime) == blocktime(ctx)
 //@ ensures [supply_never_shrinks_here] bank.supply >= old(bank.supply)
